@@ -7,5 +7,6 @@ D=/tmp/rfcopy/$NAME
 rm -rf "$D"; mkdir -p "$D"
 cp -r /repo/armulator "$D/"
 (cd "$D" && patch -p1 -s < "$DIFF") || { echo "patch failed"; exit 2; }
-cd /verif && ARMMC_REPO=$D tools/run_all.sh quick
+cd /verif && ARMMC_REPO=$D ARMMC_OUT=/tmp/rfcopy/out-$NAME tools/run_all.sh quick
+rm -rf /tmp/rfcopy/out-$NAME
 rm -rf "$D"
